@@ -220,4 +220,400 @@ theorem inAnotherChunk_frame {cfg : Cfg} {k : Kind} {s : State} {L : Layout} {h 
         · rw [c5 rfl]; exact ⟨w1, w2⟩
       · rcases d2 with rfl | rfl <;> cases h
 
+/-! ## allocGeneric, alloc -/
+theorem SlowFrame.map {cfg : Cfg} {s s' : State} {α β : Type} {r : Except AErr α} (f : α → β)
+    (h : SlowFrame cfg s s' r) : SlowFrame cfg s s' (r.map f) :=
+  ⟨h.ext, h.reqs, h.resps, fun e he => (by
+    cases r with
+    | error e' => simp only [Except.map, Except.error.injEq] at he; subst he; exact h.err e' rfl
+    | ok v => simp only [Except.map] at he; cases he), h.claimed⟩
+
+/-- the state was not changed at all -/
+theorem SlowFrame.same (cfg : Cfg) (s : State) {α : Type} {r : Except AErr α}
+    (h : ∀ e, r = .error e → e ≠ .alloc ∧ (e = .claimed ↔ s.cur = .claimed)) : SlowFrame cfg s s r :=
+  ⟨fun n _ => Ext.refl n s, Or.inl rfl, Or.inl rfl,
+   fun e he => ⟨rfl, CurAdv.refl s, fun _ => ⟨rfl, rfl⟩, (h e he).2⟩, fun _ => rfl⟩
+
+/-- frame of `allocGeneric` (fast path, then slow path), for every outcome -/
+theorem allocGeneric_frame {cfg : Cfg} {k : Kind} {s : State} {L : Layout} {h hs : Hints}
+    {s' : State} {r : Except AErr (Nat × Nat)}
+    (e : allocGeneric cfg k s L h hs = .ok (s', r)) :
+    (∀ n, (∀ i, s.cur = .chunk i → n ≤ i) → Ext n s s') ∧
+    (s'.reqs = s.reqs ∨ ∃ size, s'.reqs = s.reqs ++ [BaseReq.alloc size cfg.hdr.align]) ∧
+    (s'.resps = s.resps ∨ ∃ x, s.resps = x :: s'.resps) ∧
+    (∀ er, r = .error er → tryCur cfg k s L h = .ok none ∧ SlowFrame cfg s s' r) := by
+  unfold allocGeneric at e
+  obtain ⟨t, ht, e⟩ := bind_eq_ok e
+  cases t with
+  | some x =>
+    obtain ⟨v, s2⟩ := x
+    simp only [pure_eq_ok, Except.ok.injEq, Prod.mk.injEq] at e
+    obtain ⟨rfl, rfl⟩ := e
+    obtain ⟨f1, f2, f3, f4, f5⟩ := tryCur_frame ht
+    exact ⟨f5, Or.inl f2, Or.inl f3, fun er he => by cases he⟩
+  | none =>
+    simp only at e
+    have hf := inAnotherChunk_frame e
+    exact ⟨fun n hn => hf.ext n (fun i hi => Nat.le_succ_of_le (hn i hi)), hf.reqs, hf.resps,
+      fun er _ => ⟨ht, hf⟩⟩
+
+theorem alloc_frame {cfg : Cfg} {s : State} {L : Layout} {s' : State} {r : Except AErr Nat}
+    (e : alloc cfg s L = .ok (s', r)) :
+    (∀ n, (∀ i, s.cur = .chunk i → n ≤ i) → Ext n s s') ∧
+    (s'.reqs = s.reqs ∨ ∃ size, s'.reqs = s.reqs ++ [BaseReq.alloc size cfg.hdr.align]) ∧
+    (s'.resps = s.resps ∨ ∃ x, s.resps = x :: s'.resps) ∧
+    (∀ er, r = .error er → tryCur cfg .alloc s L Hints.custom = .ok none ∧ SlowFrame cfg s s' r) := by
+  unfold alloc at e
+  obtain ⟨⟨s1, r1⟩, h1, e⟩ := bind_eq_ok e
+  simp only [pure_eq_ok, Except.ok.injEq, Prod.mk.injEq] at e
+  obtain ⟨rfl, rfl⟩ := e
+  obtain ⟨a1, a2, a3, a4⟩ := allocGeneric_frame h1
+  refine ⟨a1, a2, a3, fun er he => ?_⟩
+  cases r1 with
+  | ok v => simp only [Except.map] at he; cases he
+  | error e1 =>
+    obtain ⟨b1, b2⟩ := a4 e1 rfl
+    exact ⟨b1, b2.map _⟩
+
+/-! ## reserve -/
+/-- frame of `reserve`, for every outcome: positions never change -/
+theorem reserve_frame {cfg : Cfg} {s : State} {add : Nat} {s' : State} {r : Except AErr Unit}
+    (e : reserve cfg s add = .ok (s', r)) :
+    (∀ n, Ext n s s') ∧ SlowFrame cfg s s' r ∧ (∀ er, r = .error er → s'.cur = s.cur) := by
+  unfold reserve at e
+  obtain ⟨cu, hcur⟩ : ∃ cu, s.cur = cu := ⟨_, rfl⟩
+  cases cu with
+  | claimed =>
+    simp only [hcur, pure_eq_ok, Except.ok.injEq, Prod.mk.injEq] at e
+    obtain ⟨rfl, rfl⟩ := e
+    exact ⟨fun n => Ext.refl n _, SlowFrame.same cfg _ (fun e he => by cases he; exact ⟨by decide, ⟨fun _ => hcur, fun _ => rfl⟩⟩),
+      fun _ _ => rfl⟩
+  | unallocated =>
+    simp only [hcur] at e
+    cases hl : layoutOk add 1 with
+    | false =>
+      simp only [hl, Bool.not_false, ↓reduceIte, pure_eq_ok, Except.ok.injEq, Prod.mk.injEq] at e
+      obtain ⟨rfl, rfl⟩ := e
+      refine ⟨fun n => Ext.refl n _, SlowFrame.same cfg _ (fun e he => ?_), fun _ _ => rfl⟩
+      cases he
+      exact ⟨by decide, fun h => (by cases h), fun h => (by rw [hcur] at h; cases h)⟩
+    | true =>
+      simp only [hl, Bool.not_true, Bool.false_eq_true, ↓reduceIte] at e
+      obtain ⟨⟨s1, r1⟩, h1, e⟩ := bind_eq_ok e
+      obtain ⟨c1, c2, c3, c4, c5, c6, c7⟩ := newChunkForCapacity_frame h1
+      cases r1 with
+      | error e1 =>
+        simp only [pure_eq_ok, Except.ok.injEq, Prod.mk.injEq] at e
+        obtain ⟨rfl, rfl⟩ := e
+        obtain ⟨d1, d2⟩ := c3 e1 rfl
+        refine ⟨c2, ⟨fun n _ => c2 n, c6, c7, fun er he => ?_, fun hcl => (by rw [hcur] at hcl; cases hcl)⟩, fun _ _ => c1⟩
+        cases he
+        refine ⟨(by rw [d1]), Or.inl c1, fun hne => ?_, ⟨fun h => ?_, fun h => (by rw [hcur] at h; cases h)⟩⟩
+        · rcases d2 with rfl | rfl
+          · exact absurd rfl hne
+          · rw [c5 rfl]; exact ⟨rfl, rfl⟩
+        · rcases d2 with rfl | rfl <;> cases h
+      | ok i =>
+        simp only [pure_eq_ok, Except.ok.injEq, Prod.mk.injEq] at e
+        obtain ⟨rfl, rfl⟩ := e
+        have hx : ∀ n, Ext n s { s1 with cur := Cur.chunk i } := fun n => (c2 n).trans (Ext.setCur n s1 _)
+        exact ⟨hx, ⟨fun n _ => hx n, c6, c7, fun er he => (by cases he), fun hcl => (by rw [hcur] at hcl; cases hcl)⟩,
+          fun er he => by cases he⟩
+  | chunk i =>
+    simp only [hcur] at e
+    cases hc : s.chunks[i]? with
+    | none => simp only [hc] at e; cases e
+    | some c =>
+      simp only [hc] at e
+      have hsame : ∀ {u : Unit}, (∀ n, Ext n s s) ∧ SlowFrame cfg s s (Except.ok u : Except AErr Unit) ∧
+          (∀ er, (Except.ok u : Except AErr Unit) = .error er → s.cur = s.cur) :=
+        ⟨fun n => Ext.refl n _, SlowFrame.same cfg _ (fun e he => by cases he), fun _ _ => rfl⟩
+      cases h1 : Rs.checked_sub add (c.remaining cfg) with
+      | none =>
+        simp only [h1, pure_eq_ok, Except.ok.injEq, Prod.mk.injEq] at e
+        obtain ⟨rfl, rfl⟩ := e
+        exact hsame
+      | some rest =>
+        simp only [h1] at e
+        cases h2 : walkReserve cfg s.chunks (s.chunks.length - (i+1)) i rest with
+        | none =>
+          simp only [h2, pure_eq_ok, Except.ok.injEq, Prod.mk.injEq] at e
+          obtain ⟨rfl, rfl⟩ := e
+          exact hsame
+        | some rest' =>
+          simp only [h2] at e
+          by_cases h3 : rest' = 0
+          · simp only [h3, ↓reduceIte, pure_eq_ok, Except.ok.injEq, Prod.mk.injEq] at e
+            obtain ⟨rfl, rfl⟩ := e
+            exact hsame
+          · simp only [h3, ↓reduceIte] at e
+            cases hl : layoutOk rest' 1 with
+            | false =>
+              simp only [hl, Bool.not_false, ↓reduceIte, pure_eq_ok, Except.ok.injEq, Prod.mk.injEq] at e
+              obtain ⟨rfl, rfl⟩ := e
+              refine ⟨fun n => Ext.refl n _, SlowFrame.same cfg _ (fun e he => ?_), fun _ _ => rfl⟩
+              cases he
+              exact ⟨by decide, fun h => (by cases h), fun h => (by rw [hcur] at h; cases h)⟩
+            | true =>
+              simp only [hl, Bool.not_true, Bool.false_eq_true, ↓reduceIte] at e
+              obtain ⟨⟨s1, r1⟩, h4, e⟩ := bind_eq_ok e
+              obtain ⟨c1, c2, c3, c4, c5, c6, c7⟩ := appendFor_frame h4
+              cases r1 with
+              | error e1 =>
+                simp only [pure_eq_ok, Except.ok.injEq, Prod.mk.injEq] at e
+                obtain ⟨rfl, rfl⟩ := e
+                obtain ⟨d1, d2⟩ := c3 e1 rfl
+                refine ⟨c2, ⟨fun n _ => c2 n, c6, c7, fun er he => ?_, fun hcl => (by rw [hcur] at hcl; cases hcl)⟩,
+                  fun _ _ => c1⟩
+                cases he
+                refine ⟨(by rw [d1]), Or.inl c1, fun hne => ?_, ⟨fun h => ?_, fun h => (by rw [hcur] at h; cases h)⟩⟩
+                · rcases d2 with rfl | rfl
+                  · exact absurd rfl hne
+                  · rw [c5 rfl]; exact ⟨rfl, rfl⟩
+                · rcases d2 with rfl | rfl <;> cases h
+              | ok j =>
+                simp only [pure_eq_ok, Except.ok.injEq, Prod.mk.injEq] at e
+                obtain ⟨rfl, rfl⟩ := e
+                exact ⟨c2, ⟨fun n _ => c2 n, c6, c7, fun er he => (by cases he),
+                  fun hcl => (by rw [hcur] at hcl; cases hcl)⟩, fun er he => by cases he⟩
+
+/-! ## grow -/
+/-- the closure `moveTo` of `grow` -/
+def moveTo (cfg : Cfg) (ptr oldSize : Nat) (r : State × Except AErr Nat) : R (State × Except AErr Nat) :=
+  match r with
+  | (s', .error e) => pure (s', .error e)
+  | (s', .ok np) => do
+    let s'' ← copyBytes cfg s' ptr np oldSize true
+    pure (s'', .ok np)
+
+theorem moveTo_error {cfg : Cfg} {ptr oldSize : Nat} {x : State × Except AErr Nat} {s' : State} {e : AErr}
+    (h : moveTo cfg ptr oldSize x = .ok (s', .error e)) : x = (s', .error e) := by
+  obtain ⟨s1, r1⟩ := x
+  cases r1 with
+  | error e1 =>
+    simp only [moveTo, pure_eq_ok, Except.ok.injEq, Prod.mk.injEq, Except.error.injEq] at h
+    obtain ⟨rfl, rfl⟩ := h; rfl
+  | ok np =>
+    simp only [moveTo] at h
+    obtain ⟨s2, _, h⟩ := bind_eq_ok h
+    simp only [pure_eq_ok, Except.ok.injEq, Prod.mk.injEq] at h
+    cases h.2
+
+theorem grow_eq (cfg : Cfg) (s : State) (ptr oldSize : Nat) (newL : Layout) :
+    grow cfg s ptr oldSize newL = (do
+  Arena.liftM (Rs.assert (decide (newL.size ≥ oldSize)))
+  if cfg.up then
+    if isLast cfg s ptr oldSize && alignFits ptr newL.align then
+      match curChunk? s with
+      | none => throw (.ub "as_non_dummy_unchecked on a dummy chunk")
+      | some c =>
+        let remaining ← Arena.liftM (Rs.sub (c.contentEnd cfg) ptr)
+        if newL.size ≤ remaining then
+          let t ← Arena.liftM (Rs.add ptr newL.size)
+          let np ← Arena.liftM (Gen.LibArith.up_align_usize_unchecked t s.minAlign)
+          pure (setCurPos s np, .ok ptr)
+        else
+          let (s', r) ← inAnotherChunk cfg .alloc s newL Hints.custom
+          moveTo cfg ptr oldSize (s', r.map (·.1))
+    else
+      moveTo cfg ptr oldSize (← alloc cfg s newL)
+  else
+    if isLast cfg s ptr oldSize then
+      match curChunk? s with
+      | none => throw (.ub "as_non_dummy_unchecked on a dummy chunk")
+      | some c =>
+        let additional ← Arena.liftM (Rs.sub newL.size oldSize)
+        let newAddr ← Arena.liftM (Gen.LibArith.bump_down ptr additional (Rs.max newL.align s.minAlign))
+        if newAddr ≥ c.contentStart cfg then
+          let newEnd ← Arena.liftM (Rs.add newAddr newL.size)
+          let s' ← copyBytes cfg s ptr newAddr oldSize (decide (newEnd < ptr))
+          pure (setCurPos s' newAddr, .ok newAddr)
+        else
+          let (s', r) ← inAnotherChunk cfg .alloc s newL Hints.custom
+          moveTo cfg ptr oldSize (s', r.map (·.1))
+    else
+      moveTo cfg ptr oldSize (← alloc cfg s newL)) := by
+  unfold grow moveTo
+  rfl
+
+/-- an error returned by `grow` is the error of its allocation attempt, and the state is the one
+    that attempt left behind -/
+theorem grow_error {cfg : Cfg} {s s' : State} {ptr oldSize : Nat} {newL : Layout} {e : AErr}
+    (h : grow cfg s ptr oldSize newL = .ok (s', .error e)) :
+    (∃ r, inAnotherChunk cfg .alloc s newL Hints.custom = .ok (s', r) ∧ r.map (·.1) = .error e) ∨
+    alloc cfg s newL = .ok (s', .error e) := by
+  rw [grow_eq] at h
+  obtain ⟨u, _, h⟩ := bind_eq_ok h
+  have hin : (inAnotherChunk cfg .alloc s newL Hints.custom >>= fun x =>
+      match x with | (s', r) => moveTo cfg ptr oldSize (s', r.map (·.1))) = .ok (s', .error e) →
+      ∃ r, inAnotherChunk cfg .alloc s newL Hints.custom = .ok (s', r) ∧ r.map (·.1) = .error e := by
+    intro h
+    obtain ⟨⟨s1, r1⟩, h1, h⟩ := bind_eq_ok h
+    have := moveTo_error h
+    simp only [Prod.mk.injEq] at this
+    obtain ⟨rfl, h2⟩ := this
+    exact ⟨r1, h1, h2⟩
+  have hal : (alloc cfg s newL >>= fun x => moveTo cfg ptr oldSize x) = .ok (s', .error e) →
+      alloc cfg s newL = .ok (s', .error e) := by
+    intro h
+    obtain ⟨x, h1, h⟩ := bind_eq_ok h
+    rw [moveTo_error h] at h1; exact h1
+  by_cases hup : cfg.up = true
+  · simp only [hup, ↓reduceIte] at h
+    split at h
+    · split at h
+      · cases h
+      · obtain ⟨rem, _, h⟩ := bind_eq_ok h
+        split at h
+        · obtain ⟨t, _, h⟩ := bind_eq_ok h
+          obtain ⟨np, _, h⟩ := bind_eq_ok h
+          simp only [pure_eq_ok, Except.ok.injEq, Prod.mk.injEq] at h
+          cases h.2
+        · exact Or.inl (hin h)
+    · exact Or.inr (hal h)
+  · simp only [hup, Bool.false_eq_true, ↓reduceIte] at h
+    split at h
+    · split at h
+      · cases h
+      · obtain ⟨ad, _, h⟩ := bind_eq_ok h
+        obtain ⟨na, _, h⟩ := bind_eq_ok h
+        split at h
+        · obtain ⟨t, _, h⟩ := bind_eq_ok h
+          obtain ⟨np, _, h⟩ := bind_eq_ok h
+          simp only [pure_eq_ok, Except.ok.injEq, Prod.mk.injEq] at h
+          cases h.2
+        · exact Or.inl (hin h)
+    · exact Or.inr (hal h)
+
+/-! ## shrink -/
+theorem modify_pos_pos (l : List Chunk) (i p q : Nat) :
+    (l.modify i (fun c => { c with pos := p })).modify i (fun c => { c with pos := q }) =
+      l.modify i (fun c => { c with pos := q }) := by
+  apply List.ext_getElem?
+  intro j
+  simp only [List.getElem?_modify]
+  by_cases hij : i = j
+  · subst hij
+    cases l[i]? <;> simp
+  · simp [hij]
+
+theorem modify_pos_self (l : List Chunk) (i q : Nat) (h : ∀ c, l[i]? = some c → c.pos = q) :
+    l.modify i (fun c => { c with pos := q }) = l := by
+  apply List.ext_getElem?
+  intro j
+  simp only [List.getElem?_modify]
+  by_cases hij : i = j
+  · subst hij
+    cases hc : l[i]? with
+    | none => simp
+    | some c => simp [← h c hc]
+  · simp [hij]
+
+theorem setCurPos_self (cfg : Cfg) (s : State) : setCurPos s (curPos cfg s) = s := by
+  obtain ⟨cu, hcur⟩ : ∃ cu, s.cur = cu := ⟨_, rfl⟩
+  unfold setCurPos
+  cases cu with
+  | unallocated => simp only [hcur]
+  | claimed => simp only [hcur]
+  | chunk i =>
+    simp only [hcur]
+    have hp : ∀ c, s.chunks[i]? = some c → c.pos = curPos cfg s := by
+      intro c hc; unfold curPos; simp only [hcur, hc]
+    unfold setPos
+    rw [modify_pos_self _ _ _ hp]
+
+/-- putting the old position back undoes a position change -/
+theorem setCurPos_restore (cfg : Cfg) (s : State) (p : Nat) : setCurPos (setCurPos s p) (curPos cfg s) = s := by
+  rcases setCurPos_eq s p with e | ⟨i, hi, e⟩
+  · rw [e]; exact setCurPos_self cfg s
+  · have h2 : setCurPos s (curPos cfg s) = s := setCurPos_self cfg s
+    rw [e]
+    unfold setCurPos at h2 ⊢
+    simp only [setPos_cur, hi] at h2 ⊢
+    unfold setPos at h2 ⊢
+    simp only [modify_pos_pos]
+    exact h2
+
+theorem deallocAssumeLast_cases {cfg : Cfg} {s s1 : State} {ptr size : Nat}
+    (h : deallocAssumeLast cfg s ptr size = .ok s1) : s1 = s ∨ ∃ p, s1 = setCurPos s p := by
+  unfold deallocAssumeLast at h
+  cases hd : cfg.deallocates with
+  | false =>
+    simp only [hd, Bool.not_false, ↓reduceIte, pure_eq_ok, Except.ok.injEq] at h
+    exact Or.inl h.symm
+  | true =>
+    simp only [hd, Bool.not_true, Bool.false_eq_true, ↓reduceIte] at h
+    split at h
+    · by_cases ht : (if cfg.up = true then ptr else ptr + size) > MAX
+      · rw [if_pos ht] at h
+        obtain ⟨_, h', _⟩ := bind_eq_ok h
+        cases h'
+      · rw [if_neg ht] at h
+        obtain ⟨p, _, h⟩ := bind_eq_ok h
+        simp only [pure_eq_ok, Except.ok.injEq] at h
+        exact Or.inr ⟨p, h.symm⟩
+    · cases h
+
+/-- an error returned by `shrink` is the error of an allocation attempt made from the unchanged
+    state `s`; the returned state is what that attempt left behind -/
+theorem shrink_error {cfg : Cfg} {s s' : State} {ptr oldSize : Nat} {newL : Layout} {e : AErr}
+    (h : shrink cfg s ptr oldSize newL = .ok (s', .error e)) :
+    inAnotherChunk cfg .alloc s newL Hints.custom = .ok (s', .error e) ∨
+    alloc cfg s newL = .ok (s', .error e) := by
+  unfold shrink at h
+  obtain ⟨u, _, h⟩ := bind_eq_ok h
+  split at h
+  · split at h
+    · obtain ⟨s1, h1, h⟩ := bind_eq_ok h
+      obtain ⟨t, ht, h⟩ := bind_eq_ok h
+      split at h
+      · obtain ⟨s3, _, h⟩ := bind_eq_ok h
+        simp only [pure_eq_ok, Except.ok.injEq, Prod.mk.injEq] at h
+        cases h.2
+      · obtain ⟨⟨s3, r3⟩, h3, h⟩ := bind_eq_ok h
+        have hs : setCurPos s1 (curPos cfg s) = s := by
+          rcases deallocAssumeLast_cases h1 with rfl | ⟨p, rfl⟩
+          · exact setCurPos_self cfg s1
+          · exact setCurPos_restore cfg s p
+        rw [hs] at h3
+        cases r3 with
+        | error e3 =>
+          simp only [pure_eq_ok, Except.ok.injEq, Prod.mk.injEq, Except.error.injEq] at h
+          obtain ⟨rfl, rfl⟩ := h
+          exact Or.inl h3
+        | ok v =>
+          obtain ⟨np, x⟩ := v
+          simp only at h
+          obtain ⟨s4, _, h⟩ := bind_eq_ok h
+          simp only [pure_eq_ok, Except.ok.injEq, Prod.mk.injEq] at h
+          cases h.2
+    · obtain ⟨⟨s1, r1⟩, h1, h⟩ := bind_eq_ok h
+      cases r1 with
+      | error e1 =>
+        simp only [pure_eq_ok, Except.ok.injEq, Prod.mk.injEq, Except.error.injEq] at h
+        obtain ⟨rfl, rfl⟩ := h
+        exact Or.inr h1
+      | ok np =>
+        simp only at h
+        obtain ⟨s4, _, h⟩ := bind_eq_ok h
+        simp only [pure_eq_ok, Except.ok.injEq, Prod.mk.injEq] at h
+        cases h.2
+  · split at h
+    · simp only [pure_eq_ok, Except.ok.injEq, Prod.mk.injEq] at h
+      cases h.2
+    · split at h
+      · obtain ⟨a, _, h⟩ := bind_eq_ok h
+        obtain ⟨b, _, h⟩ := bind_eq_ok h
+        split at h
+        · simp only [pure_eq_ok, Except.ok.injEq, Prod.mk.injEq] at h
+          cases h.2
+        · cases h
+      · obtain ⟨a, _, h⟩ := bind_eq_ok h
+        obtain ⟨b, _, h⟩ := bind_eq_ok h
+        obtain ⟨c, _, h⟩ := bind_eq_ok h
+        split at h
+        · simp only [pure_eq_ok, Except.ok.injEq, Prod.mk.injEq] at h
+          cases h.2
+        · cases h
+
 end Ledger
